@@ -126,6 +126,9 @@ func vReadmeOps() []vOp {
 		{q: `query($j: JSON) { me { tag(meta: $j) phone } }`, vars: func() map[string]interface{} {
 			return map[string]interface{}{"j": map[string]interface{}{"a": []interface{}{1, "x"}}}
 		}},
+		// a field name that occurs further down in an earlier sibling (the executor looks selections up by name)
+		{q: `{ me { best { friends { name } } friends { best { phone } } } }`},
+		{q: `{ getAnimals { owner { pets { name } } name } getHumans { pets { owner { email } } } }`},
 		// introspection fields next to ordinary ones
 		{q: `{ __schema { queryType { name } } me { name phone } }`},
 		{q: `{ me { phone } __type(name: "Human") { name } }`},
